@@ -19,6 +19,7 @@
 //   peerRequest <c> <id> echo|nosvc Echo|Defer|nometh ok:<p>|garbage
 //   peerError <c> <id>              message of type ERROR
 //   fireDone <c> <p>                the service invokes the kept done-callback of the Defer request with payload p
+//   reconn <c>                      client channel: a new connection is handed to the SAME channel object (setConnection)
 //   destroy <c>                     client channel: drop the channel object (~RpcChannel)
 //   iter                            one loop iteration
 // events per block, grouped by channel: callback events in order (`c<i> done <tag> view=<p|->`,
@@ -376,6 +377,33 @@ static bool makeChan(size_t c, const std::string& kind) {
   return true;
 }
 
+// `reconn <c>`: the client channel c gets a NEW connection (a fresh socketpair-backed TcpConnection whose connection
+// callback calls channel->setConnection(conn), as examples/protobuf/rpc/client.cc does after a reconnect of a TcpClient
+// with retry on).  The channel object - its id source and its table of outstanding calls - lives on; the old connection
+// is kept open but cut off from the channel (unread bytes of the peer are lost).  Calls made afterwards travel on the new connection and must still get fresh ids.
+static std::vector<TcpConnectionPtr> g_oldConns;
+static bool reconnChan(Chan* ch) {
+  if (ch->server || !ch->channel) return false;
+  int fds[2];
+  if (socketpair(AF_UNIX, SOCK_STREAM | SOCK_NONBLOCK | SOCK_CLOEXEC, 0, fds) != 0) { perror("socketpair"); _exit(2); }
+  InetAddress a(static_cast<uint16_t>(3000 + ch->idx)), b(static_cast<uint16_t>(4000 + ch->idx));
+  char name[48]; snprintf(name, sizeof name, "conn%d-r%zu", ch->idx, g_oldConns.size());
+  TcpConnectionPtr conn(new TcpConnection(g_loop, name, fds[0], a, b));
+  conn->setCloseCallback(onCloseNoop);
+  conn->setConnectionCallback(std::bind(clientOnConnection, ch, _1));
+  conn->setMessageCallback(std::bind(&RpcChannel::onMessage, get_pointer(ch->channel), _1, _2, _3));
+  // the old connection is gone as far as the channel is concerned: what the peer wrote to it and the loop has not read
+  // yet is lost (its bytes are discarded by the default message callback; RpcChannel::onMessage asserts that a message
+  // comes from the channel's CURRENT connection)
+  ch->conn->setMessageCallback(defaultMessageCallback);
+  g_oldConns.push_back(ch->conn);
+  ch->conn = conn;
+  ch->fds[0] = fds[0]; ch->fds[1] = fds[1];      // the peer now reads and writes the new pair (the old one stays open)
+  ch->inbuf.clear();
+  conn->connectEstablished();
+  return true;
+}
+
 static RpcChannel* channelOf(Chan& ch) {
   if (!ch.server) return get_pointer(ch.channel);
   if (ch.conn->getContext().empty()) return NULL;
@@ -446,6 +474,7 @@ static bool interp() {
     RpcChannel* rc = ch ? channelOf(*ch) : NULL;
     if (op == "flavour") ok = true;   // for the model only: which build flavour this binary is
     else if (op == "chan" && w.size() == 3) ok = makeChan(c, w[2]);
+    else if (op == "reconn" && w.size() == 2 && ch) { drainPeer(*ch); ok = reconnChan(ch); }
     else if (op == "call" && (w.size() == 2 || w.size() == 3) && rc) {
       int d = w.size() == 3 ? atoi(w[2].c_str()) : 0;
       if (d >= 0 && d <= 16) { int tag = ch->nextTag++; oneCall(ch, tag, d); ok = true; }
